@@ -154,6 +154,7 @@ MUTANTS = {
     ],
     "C18": [
         ("payloads-walked-twice", "tatsu/parproc/parproc.py", "    tasks = [\n        Task(", "    total = len(list(payloads))  # for a progress message\n    tasks = [\n        Task(", "caught"),
+        ("outcome-cleared-after-yield", "tatsu/parproc/pmap.py", "                        yield future.result()\n", "                        result = future.result()\n                        yield result\n                        result.outcome = None  # the consumer has seen it: free the memory\n", "caught"),
         ("no-pop", "tatsu/parproc/pmap.py", "_task = futures.pop(future)", "_task = futures.get(future)", "caught"),
         ("pop-never-refill", "tatsu/parproc/pmap.py", "for task in islice(taskiter, 1):", "for task in islice(taskiter, 0):", "caught"),
         ("window-minus-one", "tatsu/parproc/pmap.py", "n = 1 + (max_workers or 8)", "n = (max_workers or 8) - 1", "caught"),
